@@ -15,6 +15,12 @@ branch is strengthened: with `ErrC c e` (`JP/Lemmas/CloseClass.lean`)
 
 Per operation (`opAdd_class` … `opCopy_class` in `CloseClass.lean`, re-exported below), for
 `applyOp`, for a whole patch (`classified`), and for `applyBytes` on texts (`classified_bytes`).
+
+Since the RFC 6901 repair (D20) the specification decides the pointers without a leading `/`
+(`path`, or the `from` of move / copy): `parentUnreachable`, `findObject` finds nothing,
+`ErrMissing`; a move / copy whose *destination* is such a pointer reports the failure of its
+source half first, as the library does.  The theorems cover them with unchanged statements (closed
+examples at the end of the file).
 -/
 
 namespace JP.C08
@@ -101,7 +107,13 @@ theorem applyOp_class (o : Impl.Opts) (ho : o.ensure = false) (hl : o.limit = 0)
       subst hkind
       rw [if_pos h1]
       cases hv : op.value with
-      | none => rw [C01.spec_novalue (Or.inl rfl) (by simp [hv])] at h; cases h
+      | none =>
+        rw [C01.spec_novalue (Or.inl rfl) (by simp [hv])] at h
+        split at h
+        · next hp =>
+          cases h
+          exact ⟨.missing, liftAcc_err' (Impl.opAdd_path_none o r op ho hp), Impl.ErrC_missing (Or.inr rfl)⟩
+        · cases h
       | some cv =>
         obtain ⟨er, her, hcl⟩ := Impl.opAdd_class sz acc ho hr rfl rfl hv (by simp [hv]) (hvalInv cv hv) hop.toks h
         exact ⟨er, liftAcc_err' her, hcl⟩
@@ -120,7 +132,13 @@ theorem applyOp_class (o : Impl.Opts) (ho : o.ensure = false) (hl : o.limit = 0)
           subst hkind
           rw [if_pos h3]
           cases hv : op.value with
-          | none => rw [C01.spec_novalue (Or.inr rfl) (by simp [hv])] at h; cases h
+          | none =>
+            rw [C01.spec_novalue (Or.inr rfl) (by simp [hv])] at h
+            split at h
+            · next hp =>
+              cases h
+              exact ⟨.missing, liftAcc_err' (Impl.opReplace_path_none o r op hp), Impl.ErrC_missing (Or.inr rfl)⟩
+            · cases h
           | some cv =>
             obtain ⟨er, her, hcl⟩ := Impl.opReplace_class sz acc hr rfl rfl hv (by simp [hv]) (hvalInv cv hv) hop.toks h
             exact ⟨er, liftAcc_err' her, hcl⟩
@@ -331,6 +349,16 @@ def exPatchM : Bytes := ascii "[{\"op\":\"remove\",\"path\":\"/a/y\"}]"
 /-- an `add` at an index out of range -/
 def exPatchI : Bytes := ascii "[{\"op\":\"add\",\"path\":\"/l/5\",\"value\":0}]"
 
+/-- a pointer without a leading `/` (D20) -/
+def exPatchP : Bytes := ascii "[{\"op\":\"replace\",\"path\":\"a/x\",\"value\":2}]"
+/-- a `move` whose source pointer has no leading `/` (D20) -/
+def exPatchF : Bytes := ascii "[{\"op\":\"move\",\"from\":\"l/0\",\"path\":\"/a/y\"}]"
+/-- a `copy` to a pointer without a leading `/` whose source index is out of range: the source
+half comes first (D20) -/
+def exPatchS : Bytes := ascii "[{\"op\":\"copy\",\"from\":\"/l/5\",\"path\":\"a\"}]"
+/-- a `copy` to a pointer without a leading `/` whose source is there (D20) -/
+def exPatchD : Bytes := ascii "[{\"op\":\"copy\",\"from\":\"/l/0\",\"path\":\"a\"}]"
+
 def exRun (patch : Bytes) : Option (Spec.Outcome × Impl.Outcome Bytes) :=
   match parseCst exDocC, Impl.decodePatch patch, specPatch patch with
   | some c, .ok ops, some sops =>
@@ -344,6 +372,18 @@ example : (match exRun exPatchT with | some (.fail 0 .testUnequal, .err .testFai
 example : (match exRun exPatchM with | some (.fail 0 .absentMember, .err .missing) => true | _ => false) = true := by
   decide +kernel
 example : (match exRun exPatchI with | some (.fail 0 .badIndex, .err .invalidIndex) => true | _ => false) = true := by
+  decide +kernel
+
+/-- the inputs decided since D20: `parentUnreachable` ↦ `ErrMissing` (pointer without `/` in `path`,
+in `from`, in the destination of a copy whose source is there), and the failing source half of a
+copy to such a pointer first (`badIndex` ↦ `ErrInvalidIndex`) -/
+example : (match exRun exPatchP with | some (.fail 0 .parentUnreachable, .err .missing) => true | _ => false) = true := by
+  decide +kernel
+example : (match exRun exPatchF with | some (.fail 0 .parentUnreachable, .err .missing) => true | _ => false) = true := by
+  decide +kernel
+example : (match exRun exPatchS with | some (.fail 0 .badIndex, .err .invalidIndex) => true | _ => false) = true := by
+  decide +kernel
+example : (match exRun exPatchD with | some (.fail 0 .parentUnreachable, .err .missing) => true | _ => false) = true := by
   decide +kernel
 
 end Examples
